@@ -24,9 +24,40 @@ def lattice(rng, d, k, oned):
     """k lattice vectors in dimension d: skewed / negative / long / short / axis-aligned."""
     if oned:
         return np.array([rng.choice([1.0, -1.0, 0.5, -2.5, 3.0, rng.uniform(0.3, 3), -rng.uniform(0.3, 3)])])
-    style = rng.choice(["axis", "skew", "skew", "random", "longshort", "negative"])
+    style = rng.choice(["axis", "skew", "skew", "random", "longshort", "negative", "veryskew", "lengths"])
     if k == 0:
         return np.zeros((0, d))
+    if style == "veryskew" and k >= 2:
+        # a very skewed cell: the second vector is almost parallel to the first (5..12 degrees),
+        # plane spacings far smaller than the vector lengths
+        for _ in range(50):
+            a = np.array([[rng.uniform(-1, 1) for _ in range(d)] for _ in range(k)])
+            a[0] /= max(np.linalg.norm(a[0]), 1e-3)
+            perp = a[1] - (a[1] @ a[0]) * a[0]
+            if np.linalg.norm(perp) < 1e-2:
+                continue
+            perp /= np.linalg.norm(perp)
+            ang = math.radians(rng.choice([5.0, 8.0, 12.0]))
+            a[1] = rng.choice([1.0, -1.0, 1.7]) * (math.cos(ang) * a[0] + math.sin(ang) * perp)
+            if k == 3:
+                a[2] *= 1.0 / max(np.linalg.norm(a[2]), 1e-3)
+            s = np.linalg.svd(a, compute_uv=False)
+            if s.min() > 0.03 * s.max():
+                return a
+    if style == "lengths" and k >= 2:
+        # lattice vectors of very different lengths (1 : 30 .. 1 : 200), moderately skewed
+        for _ in range(50):
+            a = np.array([[rng.uniform(-1, 1) for _ in range(d)] for _ in range(k)])
+            for i in range(k):
+                a[i] /= max(np.linalg.norm(a[i]), 1e-3)
+            g = a @ a.T
+            if np.abs(g - np.eye(k)).max() > 0.8:
+                continue
+            lens = [1.0] + [rng.choice([30.0, 100.0, 200.0, 1 / 30.0]) for _ in range(k - 1)]
+            rng.shuffle(lens)
+            return a * np.array(lens)[:, None]
+    if style in ("veryskew", "lengths"):
+        style = "skew"
     while True:
         if style == "axis":
             a = np.zeros((k, d))
@@ -60,7 +91,7 @@ def periodic_args(rng):
     else:
         rv = lattice(rng, d, k, oned)
     n = rng.choice([1, 1, 2, 3, 4, 6, 9])
-    a = np.zeros((0, d)) if rv is None or rv.size == 0 else rv.reshape(k, d)
+    a = np.zeros((0, d)) if rv is None or rv.size == 0 else np.asarray(rv, dtype=float).reshape(k, d)
     spread = rng.choice(["cell", "cell", "outside", "wide"])
     # fractional coordinates along the lattice vectors (kept away from integers: wrapping
     # under rounding is not part of the claim) + a component off the lattice span
@@ -78,7 +109,35 @@ def periodic_args(rng):
         pts = pts[:, 0]
     w = np.array([rng.choice([1.0, 0.5, rng.uniform(0.1, 2)]) for _ in range(n)])
     wrap = rng.random() < 0.4
-    return dict(points=pts, weights=w, realvecs=rv, wrap=wrap, oned=oned, d=d, k=(0 if rv is None else k), spread=spread)
+    # dtype / memory layout of the array arguments (the float64 computation on the stored values is
+    # the reference): at most one of points / realvecs in single precision
+    from .c10 import _dress
+    tags = []
+    rtol = RTOL
+    q = rng.random()
+    if q < 0.35:
+        pts = _dress(rng, pts, tags)
+        if tags and tags[0] == "int" and k:
+            # integral coordinates sit on cell boundaries of integral lattices: keep them off
+            pts = np.asarray(pts, dtype=float) + 0.0
+            pts = (pts + np.array([rng.uniform(0.05, 0.45) for _ in range(pts.size)]).reshape(pts.shape)).astype(np.float32)
+            tags[0] = "f32"
+        tags[0] = "points:" + tags[0]
+    elif q < 0.5 and rv is not None and np.size(rv):
+        if oned and rng.random() < 0.5 and float(rv[0]) == round(float(rv[0])):
+            rv = rv.astype(np.int64)
+            tags.append("realvecs:int-1d")
+        elif oned or (lambda s: s.min() > 0.15 * s.max())(np.linalg.svd(np.asarray(rv, dtype=float).reshape(k, d), compute_uv=False)):
+            # (single precision only for well-conditioned cells: the pseudo-inverse is then accurate to ~1e-6)
+            rv = np.asarray(rv).astype(np.float32)
+            rtol = 3e-6      # reciprocal vectors and spacings come out in single precision
+            tags.append("realvecs:f32")
+    if rng.random() < 0.3:
+        wt = []
+        w = _dress(rng, w, wt)
+        tags.append("weights:" + wt[0])
+    return dict(points=pts, weights=w, realvecs=rv, wrap=wrap, oned=oned, d=d, k=(0 if rv is None else k), spread=spread,
+                dress=tags, rtol=rtol)
 
 
 def build_periodic(rng, M):
@@ -91,7 +150,7 @@ def build_periodic(rng, M):
     return g
 
 
-def brute_images(pts, a, c, r, rng=None, scale=None, zero_tie_ok=False):
+def brute_images(pts, a, c, r, rng=None, scale=None, zero_tie_ok=False, margin=1.0):
     """All (i, j) with ||x_i + j.a - c|| <= r by direct enumeration over a generous per-point
     box.  The radius is moved away from every candidate distance (relative margin) first.
     a: (k, d) lattice vectors; pts: (n,) or (n, d).   -> (sorted list of (i, tuple j)), radius
@@ -119,7 +178,7 @@ def brute_images(pts, a, c, r, rng=None, scale=None, zero_tie_ok=False):
     for _ in range(80):
         cand = candidates(r * 1.001 + 1e-6 * scale)
         tie = [1 for (i, j, dd) in cand
-               if abs(dd - r) <= 1e-9 * scale + 1e-7 * max(dd, r) and not (zero_tie_ok and dd == 0.0 and r == 0.0 and not any(j))]
+               if abs(dd - r) <= margin * (1e-9 * scale + 1e-7 * max(dd, r)) and not (zero_tie_ok and dd == 0.0 and r == 0.0 and not any(j))]
         if not tie:
             break
         r = r * (1 + 3e-6) + 3e-9 * scale
@@ -137,12 +196,15 @@ LEVEL_TEXT = (
     "ceil/floor box and is found), soundness (every entry is within r, carries the parent's weight and index, stored "
     "position = parent point + lattice translation), no duplicates, the constructor/setter establish the interval "
     "invariant incl. wrapping into [0,1), K = 0 coincides with the plain grid of C10 for every finite radius, an empty "
-    "sphere gives the empty grid. Tie to the code: hand model compared with the implementation on random lattices "
+    "sphere gives the empty grid. Tie to the code: PeriodicGrid.__init__, the points setter, __getitem__ and get_localgrid "
+    "(incl. the loop body) are translated statement by statement (harness/translate/localgrid.py -> Gen/LocalGrid.lean, "
+    "regenerated on every run) and proved equal to the hand model (gen_init_eq, gen_pquery_eq, ...), so the theorems hold "
+    "for the generated text; the driver executes the generated definitions, compared with the implementation on random lattices "
     "(dims 1..3, K = 0..dim, skewed/negative/long/short, wrapped or not, points outside the cell, far centres)."
 )
 TECHNIQUE = "Lean 4 proof (Cauchy-Schwarz box bound, product-of-ranges enumeration) + differential runs + brute-force image enumeration"
-GEN = []
-LEAN_MODULES = ["GridVerif.Props.C11"]
+GEN = ["localgrid"]
+LEAN_MODULES = ["GridVerif.Props.C11", "GridVerif.Props.C11.Gen"]
 THEOREMS = [
     "GridVerif.C11.ilc_in_box",
     "GridVerif.C11.periodic_complete",
@@ -163,6 +225,24 @@ THEOREMS = [
     "GridVerif.C11.periodic_getitem_spec",
     "GridVerif.C11.recivec_norm_pos",
     "GridVerif.C11.exDual",
+    # tie to the source: theorems about the generated definitions (Gen/LocalGrid.lean)
+    "GridVerif.C11.gen_psetter_effects",
+    "GridVerif.C11.gen_ranges_eq",
+    "GridVerif.C11.gen_init_eq",
+    "GridVerif.C11.gen_ppoints_set_eq",
+    "GridVerif.C11.gen_pweights_set_eq",
+    "GridVerif.C11.gen_pgetitem_eq",
+    "GridVerif.C11.pyFor_body_spec",
+    "GridVerif.C11.gen_pquery_eq",
+    "GridVerif.C11.genPStep_eq_step",
+    "GridVerif.C11.genPRun_eq_run",
+    "GridVerif.C11.gen_construct_inv",
+    "GridVerif.C11.gen_wrap_spec",
+    "GridVerif.C11.gen_setPoints_inv",
+    "GridVerif.C11.gen_ilc_in_box",
+    "GridVerif.C11.gen_getLocalgrid_spec",
+    "GridVerif.C11.gen_periodic_localgrid_correct",
+    "GridVerif.C11.gen_periodic_getitem_spec",
 ]
 RULE = (
     "one evaluation = one operation (constructor incl. wrapping, get_localgrid, points=, weights=, __getitem__) run on "
@@ -172,7 +252,8 @@ RULE = (
 )
 TRUSTED_BASE = [
     "Lean 4.33 kernel; axioms propext, Classical.choice, Quot.sound only (audited per theorem)",
-    "hand model Model/Periodic.lean of PeriodicGrid (constructor, setter, get_localgrid, __getitem__), tied by differential runs",
+    "translator harness/translate/localgrid.py (Python AST -> Gen/LocalGrid.lean) and the vocabulary Model/LocalGridPy.lean (row-list form of 1-D/N-D arrays; the constructor's ndim/shape prelude is pinned text); generated definitions executed by the driver and compared with the implementation",
+    "hand model Model/Periodic.lean of PeriodicGrid (proved equal to the generated definitions)",
     "duality contract of the reciprocal vectors (np.linalg.svd pseudo-inverse), checked numerically on every generated lattice",
     "contract of scipy cKDTree.query_ball_point; NumPy indexing, itertools.product order",
 ]
@@ -211,11 +292,12 @@ def _header(args, g):
             f"{int(args['wrap'])}"), a
 
 
-def _close_arr(x, y, scale):
+def _close_arr(x, y, scale, rtol=None):
+    rtol = RTOL if rtol is None else rtol
     x, y = np.asarray(x, dtype=float), np.asarray(y, dtype=float)
     if x.shape != y.shape:
         return False
-    return bool(np.all(np.abs(x - y) <= RTOL * scale + RTOL * np.maximum(np.abs(x), np.abs(y))))
+    return bool(np.all(np.abs(x - y) <= rtol * scale + rtol * np.maximum(np.abs(x), np.abs(y))))
 
 
 def _parse_mat(tok):
@@ -261,7 +343,9 @@ def recover_ilc(parent_pts, lg, a):
     return [tuple(int(v) for v in row) for row in ilc], ok
 
 
-def _query_args(rng, g, a, d, oned):
+def _query_args(rng, g, a, d, oned, margin=1.0):
+    """-> (centre object, numeric centre (d,), radius object, radius float, expected images, how)"""
+    from .c10 import _centre_obj
     pts = _rows(g.points, d)
     scale = float(np.linalg.norm(a, axis=1).min()) if len(a) else 1.0
     how = rng.choice(["on", "near", "near", "far", "origin", "cellshift"])
@@ -276,66 +360,128 @@ def _query_args(rng, g, a, d, oned):
     else:
         c = np.zeros(d)
     c = np.asarray(c, dtype=float).reshape(d)
+    q = rng.random()
+    if q < 0.12:
+        c = np.round(c)
+    elif q < 0.3:
+        c = c.astype(np.float32).astype(float)
     r = rng.choice([0.0, 1e-9, 0.05, 0.3, 0.3, 0.8, 0.8, 1.3, 1.7, 2.6]) * scale
-    want, r = brute_images(pts, a, c, r, scale=scale, zero_tie_ok=(len(a) == 0))
-    cc = (float(c[0]) if rng.random() < 0.7 else np.array(c[0])) if oned else c
-    return cc, c, r, want, how
+    if len(a) and scale > 0:
+        # keep the image enumeration small for cells whose plane spacings are far below the vector lengths
+        b = np.linalg.pinv(a).T
+        r = min(r, 12.0 / float(np.linalg.norm(b, axis=1).max()))
+    robj = None
+    rk = rng.choice(["float"] * 5 + ["f64", "f32", "f32", "int"])
+    if rk == "f32":
+        r0 = float(np.float32(r))
+        want, r1 = brute_images(pts, a, c, r0, scale=scale, zero_tie_ok=(len(a) == 0), margin=margin)
+        if r1 == r0:
+            robj, r = np.float32(r0), r0
+    elif rk == "int" and r >= 1:
+        r0 = float(int(r))
+        want, r1 = brute_images(pts, a, c, r0, scale=scale, zero_tie_ok=(len(a) == 0), margin=margin)
+        if r1 == r0:
+            robj, r = int(r0), r0
+    if robj is None:
+        want, r = brute_images(pts, a, c, r, scale=scale, zero_tie_ok=(len(a) == 0), margin=margin)
+        robj = np.float64(r) if rk == "f64" else r
+    cc, ck = _centre_obj(rng, float(c[0]) if oned else c, oned)
+    return cc, c, robj, r, want, how + ":" + ck + ":" + type(robj).__name__
+
+
+def _obs_equal(x, y):
+    if isinstance(x, (tuple, list)) and isinstance(y, (tuple, list)):
+        return len(x) == len(y) and all(_obs_equal(u, v) for u, v in zip(x, y))
+    if isinstance(x, np.ndarray) or isinstance(y, np.ndarray):
+        return np.array_equal(np.asarray(x), np.asarray(y))
+    return x == y
+
+
+def _arr_text(x):
+    from .c10 import _descr
+    return "None" if x is None else _descr(np.asarray(x))
 
 
 def corr(ctx: Ctx):
     import warnings
+    from .c10 import _clone, _descr, _index, _py_select
     M = _mods()
     PG = M["periodicgrid"].PeriodicGrid
+    LG = M["basegrid"].LocalGrid
     rng = ctx.rng
-    ncase = ctx.n(5000, 50000)
+    ncase = ctx.n(3400, 34000)
     cases, lines = [], []
-    for ci in range(ncase):
-        args = periodic_args(rng)
-        d, oned = args["d"], args["oned"]
-        orig = args["points"].copy()
+
+    def build(args):
+        """A new object from new array objects holding the arguments (the caller's own arrays: with
+        wrap=False the grid keeps them, and a same-object reassignment edits them — legitimately)."""
+        pin, win = _clone(args["points"]), _clone(args["weights"])
+        with warnings.catch_warnings():
+            warnings.simplefilter("ignore")
+            g = PG(pin, win, args["realvecs"], wrap=args["wrap"])
+        if not np.array_equal(pin, args["points"]) or not np.array_equal(win, args["weights"]):
+            ctx.fail("corr", "construct:caller-array", "the caller's points/weights array was modified by the constructor (wrap)",
+                     witness={"points": args["points"], "realvecs": args["realvecs"], "wrap": args["wrap"]})
+        return g
+
+    def observe(op, g):
         try:
             with warnings.catch_warnings():
                 warnings.simplefilter("ignore")
-                g = PG(args["points"], args["weights"], args["realvecs"], wrap=args["wrap"])
+                return op(g)
+        except Exception as e:  # noqa: BLE001
+            return ("E", _errtag(e))
+
+    for ci in range(ncase):
+        args = periodic_args(rng)
+        d, oned = args["d"], args["oned"]
+        orig = np.array(args["points"], copy=True)
+        try:
+            g = build(args)
         except Exception as e:  # noqa: BLE001
             ctx.count(["construct", repr(args)], nontrivial=False, tag="construct:raises")
             ctx.fail("corr", "construct", f"PeriodicGrid constructor raised {type(e).__name__}: {str(e)[:100]} on valid arguments",
                      witness={k: v for k, v in args.items()})
             continue
         head, a = _header(args, g)
+        margin = 1.0 if args["rtol"] == RTOL else 3e3
         skew = bool(len(a)) and (bool(np.any(a < 0)) or np.count_nonzero(a) > len(a))
-        obs = [("C", np.array(g.points, copy=True), np.array(g.recivecs, copy=True), np.array(g.spacings, copy=True), np.array(g.frac_intvls, copy=True))]
-        toks, text, nontriv = [], [f"g = PeriodicGrid({args['points'].tolist()}, {args['weights'].tolist()}, "
-                                   f"{None if args['realvecs'] is None else np.asarray(args['realvecs']).tolist()}, wrap={args['wrap']})"], False
+
+        def obs_c(g):
+            return ("C", np.array(g.points, copy=True), np.array(g.recivecs, copy=True), np.array(g.spacings, copy=True),
+                    np.array(g.frac_intvls, copy=True))
+        obs = [obs_c(g)]
+        ops = []
+        toks, nontriv = [], False
+        text = [f"g = PeriodicGrid({_arr_text(args['points'])}, {_arr_text(args['weights'])}, {_arr_text(args['realvecs'])}, wrap={args['wrap']})"]
+        for tg in args["dress"]:
+            ctx.tagc("dtype:" + tg)
         for _ in range(rng.choice([1, 1, 2, 3, 4])):
             k = rng.choice(["q", "q", "q", "q", "sp", "sw", "gi"])
             n = len(g.weights)
             if k == "q":
-                cc, c, r, want, how = _query_args(rng, g, a, d, oned)
+                cc, c, robj, r, want, how = _query_args(rng, g, a, d, oned, margin)
                 bad = rng.random() < 0.05
                 if bad:
                     r = rng.choice([-1.0, math.nan, math.inf, -math.inf])
-                toks.append(("q s " + f2b(float(np.asarray(cc))) if oned else "q v " + fvec(c)) + " " + f2b(r))
-                text.append(f"g.get_localgrid({cc!r}, {r!r})")
-                parent = np.array(g.points, copy=True)
-                try:
-                    with warnings.catch_warnings():
-                        warnings.simplefilter("ignore")
-                        lg = g.get_localgrid(cc, r)
+                    robj = rng.choice([r, np.float32(r)])
+                toks.append(("q s " + f2b(float(c[0])) if oned else "q v " + fvec(c)) + " " + f2b(r))
+                text.append(f"g.get_localgrid({_descr(cc)}, {_descr(robj)})")
+
+                def op(g, cc=cc, robj=robj, how=how):
+                    parent = np.array(g.points, copy=True)
+                    lg = g.get_localgrid(cc, robj)
+                    if type(lg) is not LG or not np.array_equal(np.asarray(lg.center), np.asarray(cc)):
+                        return ("X", "result is not a LocalGrid around the given centre")
                     ilc, ok = recover_ilc(parent, lg, a)
                     if not ok:
-                        obs.append(("X", "local points are not parent points minus integer lattice translations"))
-                    else:
-                        order = sorted(range(len(ilc)), key=lambda t: (ilc[t], int(lg.indices[t])))
-                        obs.append(("L", [ilc[t] for t in order], [int(lg.indices[t]) for t in order],
-                                    _rows(lg.points, d)[order] if len(order) else np.zeros((0, d)),
-                                    np.asarray(lg.weights)[order] if len(order) else np.zeros(0), how))
-                        if len(a) and (len(set(ilc)) >= 2 or skew):
-                            nontriv = True
-                except Exception as e:  # noqa: BLE001
-                    obs.append(("E", _errtag(e)))
+                        return ("X", "local points are not parent points minus integer lattice translations")
+                    order = sorted(range(len(ilc)), key=lambda t: (ilc[t], int(lg.indices[t])))
+                    return ("L", [ilc[t] for t in order], [int(lg.indices[t]) for t in order],
+                            _rows(lg.points, d)[order] if len(order) else np.zeros((0, d)),
+                            np.asarray(lg.weights, dtype=float)[order] if len(order) else np.zeros(0), how)
             elif k == "sp":
-                old = np.asarray(g.points)
+                old = np.asarray(g.points, dtype=float)
                 how = rng.choice(["cells", "fresh", "permute"])
                 if how == "cells" and len(a):
                     new = old + (np.array([rng.choice([-5, -1, 2, 6]) for _ in range(len(a))]) @ a).reshape(old.shape[1:] if not oned else ())
@@ -346,24 +492,29 @@ def corr(ctx: Ctx):
                 bad = rng.random() < 0.08
                 if bad:
                     new = np.concatenate([new, new[:1]])
+                cur = g.points
+                same_obj = (not bad) and rng.random() < 0.3 and cur.dtype == np.float64 and cur.flags.writeable
                 toks.append(f"sp {int(oned)} " + _fm(new, d))
-                text.append(f"g.points = np.array({new.tolist()})")
-                try:
-                    g.points = new
-                    obs.append(("D", np.array(g.frac_intvls, copy=True)))
-                except Exception as e:  # noqa: BLE001
-                    obs.append(("E", _errtag(e)))
+                text.append(f"p = g.points; p[...] = {_descr(new)}; g.points = p" if same_obj else f"g.points = {_descr(new)}")
+                ctx.tagc("setpoints:" + ("bad" if bad else how) + (":same-object" if same_obj else ""))
+
+                def op(g, new=new, same_obj=same_obj):
+                    if same_obj:
+                        p = g.points
+                        p[...] = new
+                        g.points = p
+                    else:
+                        g.points = _clone(new)
+                    return ("D", np.array(g.frac_intvls, copy=True))
             elif k == "sw":
                 new = np.array([rng.uniform(0.1, 2) for _ in range(n + (1 if rng.random() < 0.08 else 0))])
                 toks.append("sw " + fvec(new))
-                text.append(f"g.weights = np.array({new.tolist()})")
-                try:
-                    g.weights = new
-                    obs.append(("D", None))
-                except Exception as e:  # noqa: BLE001
-                    obs.append(("E", _errtag(e)))
+                text.append(f"g.weights = {_descr(new)}")
+
+                def op(g, new=new):
+                    g.weights = _clone(new)
+                    return ("D", None)
             else:
-                from .c10 import _index, _py_select, _descr
                 for _try in range(20):
                     ik, idx, tok = _index(rng, n)
                     try:
@@ -375,23 +526,38 @@ def corr(ctx: Ctx):
                     ik, idx, tok = "int", 0, "gi i 0"
                 toks.append(tok)
                 text.append(f"g[{_descr(idx)}]")
-                try:
-                    with warnings.catch_warnings():
-                        warnings.simplefilter("ignore")
-                        sub = g[idx]
+                ctx.tagc("getitem:" + ik)
+
+                def op(g, idx=idx):
+                    sub = g[idx]
                     if type(sub) is not PG or not np.array_equal(np.asarray(sub.realvecs), np.asarray(g.realvecs)):
-                        obs.append(("X", "selection is not a PeriodicGrid with the same lattice"))
-                    else:
-                        obs.append(("G", np.array(sub.points), np.array(sub.weights), np.array(sub.frac_intvls)))
-                except Exception as e:  # noqa: BLE001
-                    obs.append(("E", _errtag(e)))
-        if not np.array_equal(orig, args["points"]):
-            ctx.fail("corr", "construct:caller-array", "the caller's points array was modified by the constructor (wrap)", witness={"history": text})
+                        return ("X", "selection is not a PeriodicGrid with the same lattice")
+                    return ("G", np.array(sub.points), np.array(sub.weights), np.array(sub.frac_intvls))
+            ops.append(op)
+            o = observe(op, g)
+            obs.append(o)
+            if o[0] == "L" and len(a) and (len(set(o[1])) >= 2 or skew):
+                nontriv = True
+        # every fifth object is built a second time from the same arguments; the same history on the
+        # second build must give the same observations (state carried between builds / calls)
+        if ci % 5 == 0:
+            try:
+                g2 = build(args)
+                obs2 = [obs_c(g2)] + [observe(op, g2) for op in ops]
+                ctx.tagc("second-build", len(obs2))
+                for j, (o1, o2) in enumerate(zip(obs, obs2)):
+                    if not _obs_equal(o1, o2):
+                        ctx.fail("corr", "hist:rebuild", f"PeriodicGrid (dim {d}, {len(a)} lattice vector(s)): step {j} of the same history on a second "
+                                 f"build from the same arguments differs: `{text[j][:120]}`", witness={"history": text[: j + 1], "realvecs": a})
+                        break
+            except Exception as e:  # noqa: BLE001
+                ctx.fail("corr", "hist:rebuild", f"second build from the same arguments raised {type(e).__name__}: {e}", witness={"history": text})
         cases.append((args, a, obs, text, nontriv))
         lines.append(f"{head} {len(toks)} " + " ".join(toks))
     answers = driver_batch(lines)
     for (args, a, obs, text, nontriv), line, ans in zip(cases, lines, answers):
         d = args["d"]
+        rt = args["rtol"]
         scale = max(1.0, float(np.abs(_rows(obs[0][1], d)).max())) if len(obs[0][1]) else 1.0
         tagbase = f"d{d}:k{len(a)}:" + ("wrap" if args["wrap"] else "nowrap") + ":" + args["spread"]
         ctx.count(line, nontrivial=nontriv, tag=tagbase, n=len(obs))
@@ -413,23 +579,25 @@ def corr(ctx: Ctx):
             elif kind == "C":
                 mp, mr, ms, mi = _fmat_of(m), _fmat_of(m), _fvec_of(m), _fmat_of(m)
                 k = len(a)
-                if not _close_arr(_rows(o[1], d), mp.reshape(-1, d) if mp.size else np.zeros((0, d)), scale):
+                if not _close_arr(_rows(o[1], d), mp.reshape(-1, d) if mp.size else np.zeros((0, d)), scale, rt):
                     what = "constructor: stored points differ (wrapping)"
-                elif not _close_arr(np.asarray(o[2], dtype=float).reshape(k, d) if k else np.zeros((0, d)), mr.reshape(k, d) if k else np.zeros((0, d)), 1.0):
+                elif not _close_arr(np.asarray(o[2], dtype=float).reshape(k, d) if k else np.zeros((0, d)), mr.reshape(k, d) if k else np.zeros((0, d)), 1.0, rt):
                     what = "constructor: reciprocal vectors differ"
-                elif not _close_arr(np.asarray(o[3], dtype=float).reshape(-1), ms, 1.0):
+                elif not _close_arr(np.asarray(o[3], dtype=float).reshape(-1), ms, 1.0, rt):
                     what = f"constructor: spacings differ: implementation {np.asarray(o[3]).tolist()}, model {ms.tolist()}"
-                elif not _close_arr(np.asarray(o[4], dtype=float).reshape(k, 2) if k else np.zeros((0, 2)), mi.reshape(k, 2) if k else np.zeros((0, 2)), scale):
+                elif not _close_arr(np.asarray(o[4], dtype=float).reshape(k, 2) if k else np.zeros((0, 2)), mi.reshape(k, 2) if k else np.zeros((0, 2)), scale, rt):
                     what = f"constructor: frac_intvls differ: implementation {np.asarray(o[4]).tolist()}, model {mi.tolist()}"
             elif kind == "L":
                 milc, midx, mp, mw = _imat_of(m), _ivec_of(m), _fmat_of(m), _fvec_of(m)
                 if len(a) == 0:
                     milc = [() for _ in midx]
-                ctx.tagc("query:" + o[5] + (":empty" if not o[2] else (":multi" if len(set(o[1])) > 1 else ":single")))
+                ctx.tagc("query:" + o[5].split(":")[0] + (":empty" if not o[2] else (":multi" if len(set(o[1])) > 1 else ":single")))
+                ctx.tagc("centre:" + o[5].split(":")[1])
+                ctx.tagc("radius:" + o[5].split(":")[2])
                 if milc != o[1] or midx != o[2]:
                     what = (f"get_localgrid: (translation, index) pairs differ: implementation {list(zip(o[1], o[2]))[:8]} ({len(o[2])} entries), "
                             f"model {list(zip(milc, midx))[:8]} ({len(midx)} entries)")
-                elif not _close_arr(o[3], mp.reshape(-1, d) if mp.size else np.zeros((0, d)), scale * 30):
+                elif not _close_arr(o[3], mp.reshape(-1, d) if mp.size else np.zeros((0, d)), scale * 30, rt):
                     what = "get_localgrid: stored positions differ"
                 elif not np.array_equal(o[4], mw):
                     what = "get_localgrid: weights differ"
@@ -437,14 +605,15 @@ def corr(ctx: Ctx):
                 if o[1] is not None:
                     mi = _fmat_of(m)
                     k = len(a)
-                    if not _close_arr(np.asarray(o[1], dtype=float).reshape(k, 2) if k else np.zeros((0, 2)), mi.reshape(k, 2) if k else np.zeros((0, 2)), scale * 30):
+                    if not _close_arr(np.asarray(o[1], dtype=float).reshape(k, 2) if k else np.zeros((0, 2)), mi.reshape(k, 2) if k else np.zeros((0, 2)), scale * 30, rt):
                         what = f"points setter: frac_intvls differ: implementation {np.asarray(o[1]).tolist()}, model {mi.tolist()}"
             elif kind == "G":
                 mp, mw, mi = _fmat_of(m), _fvec_of(m), _fmat_of(m)
                 k = len(a)
-                if not _close_arr(_rows(o[1], d), mp.reshape(-1, d) if mp.size else np.zeros((0, d)), scale * 30) or not np.array_equal(o[2], mw):
+                if not _close_arr(_rows(o[1], d), mp.reshape(-1, d) if mp.size else np.zeros((0, d)), scale * 30, rt) \
+                        or not np.array_equal(np.asarray(o[2], dtype=float), mw):
                     what = "__getitem__: selected points/weights differ"
-                elif not _close_arr(np.asarray(o[3], dtype=float).reshape(k, 2) if k else np.zeros((0, 2)), mi.reshape(k, 2) if k else np.zeros((0, 2)), scale * 30):
+                elif not _close_arr(np.asarray(o[3], dtype=float).reshape(k, 2) if k else np.zeros((0, 2)), mi.reshape(k, 2) if k else np.zeros((0, 2)), scale * 30, rt):
                     what = "__getitem__: frac_intvls of the selection differ"
             elif kind == "E":
                 ctx.tagc("error:" + o[1])
@@ -453,7 +622,7 @@ def corr(ctx: Ctx):
             if what:
                 ctx.fail("corr", "hist:" + {"C": "construct", "L": "get_localgrid", "D": "setter", "G": "getitem", "E": "error", "X": "shape"}.get(o[0], "op"),
                          f"PeriodicGrid (dim {d}, {len(a)} lattice vector(s), wrap={args['wrap']}): step {j}: {what}",
-                         witness={"history": text[: j + 1], "realvecs": a})
+                         witness={"history": text[: j + 1], "realvecs": a, "rtol": rt})
                 break
 
 
@@ -468,7 +637,7 @@ def _errtag(e):
 SNIP = """import warnings; warnings.filterwarnings('ignore')
 import itertools, numpy as np
 from grid.periodicgrid import PeriodicGrid
-pts = np.array({pts!r}); w = np.array({w!r}); rv = {rv}; wrap = {wrap}
+pts = {pts}; w = {w}; rv = {rv}; wrap = {wrap}
 g = PeriodicGrid(pts, w, rv, wrap=wrap)
 {pre}
 c = {c!r}; r = {r!r}
@@ -486,6 +655,76 @@ assert got == want, f'(index, translation) pairs {{got}}, brute force {{want}}'
 """
 
 
+def oracle_at(ctx: Ctx, failure):
+    """A correspondence disagreement on a history -> the property itself on the implementation along
+    that history: every accepted query against the brute-force image enumeration of the current points."""
+    import ast
+    import warnings
+    w = failure.witness or {}
+    hist = w.get("history") if isinstance(w, dict) else None
+    if not (isinstance(hist, list) and hist and str(hist[0]).startswith("g = PeriodicGrid(")):
+        return
+    ns = {"np": np}
+    exec("from grid.periodicgrid import PeriodicGrid", ns)
+    try:
+        with warnings.catch_warnings():
+            warnings.simplefilter("ignore")
+            exec(hist[0], ns)
+    except Exception as e:  # noqa: BLE001
+        ctx.info(f"oracle_at: the constructor of the disagreement raises {type(e).__name__}")
+        return
+    g = ns["g"]
+    pts0 = np.asarray(g.points)
+    d = 1 if pts0.ndim == 1 else pts0.shape[1]
+    a = _lat(g, d)
+    margin = 3e3 if (isinstance(w.get("rtol"), float) and w["rtol"] > RTOL) else 1.0
+    for j, line in enumerate(hist[1:], 1):
+        try:
+            st = ast.parse(line).body[0]
+        except SyntaxError:
+            return
+        if isinstance(st, ast.Expr) and isinstance(st.value, ast.Call) and ast.unparse(st.value.func) == "g.get_localgrid":
+            c, r = (eval(ast.unparse(x), ns) for x in st.value.args)
+            try:
+                ok = np.asarray(c).shape == np.asarray(g.points).shape[1:] and math.isfinite(float(r)) and float(r) >= 0
+            except Exception:  # noqa: BLE001
+                ok = False
+            if not ok:
+                continue
+            P = _rows(g.points, d)
+            want, r2 = brute_images(P, a, np.atleast_1d(np.asarray(c, dtype=float)), float(r), zero_tie_ok=(len(a) == 0), margin=margin)
+            if r2 != float(r):
+                ctx.info("oracle_at: the radius of the disagreement ties with an image distance (outside the claim)")
+                continue
+            snippet = ("import warnings; warnings.filterwarnings('ignore')\nimport itertools, numpy as np\nfrom grid.periodicgrid import PeriodicGrid\n"
+                       + "\n".join(hist[:j]) + f"\nlg = {line}\n"
+                       f"want = {sorted(i for i, _ in want)!r}   # parent index of every periodic image inside the sphere (brute force)\n"
+                       "assert sorted(map(int, lg.indices)) == want, (sorted(map(int, lg.indices)), want)\n")
+            try:
+                with warnings.catch_warnings():
+                    warnings.simplefilter("ignore")
+                    lg = g.get_localgrid(c, r)
+            except Exception as e:  # noqa: BLE001
+                ctx.fail("oracle", "periodicgrid.get_localgrid:" + ("empty" if not want else "raises"),
+                         f"`{line[:100]}` raised {type(e).__name__}: {str(e)[:80]} after {j - 1} earlier op(s); {len(want)} image(s) lie inside the sphere",
+                         witness={"history": hist[: j + 1], "expected": want[:40]}, snippet=snippet)
+                continue
+            ilc, okl = recover_ilc(P, lg, a)
+            got = sorted((int(i), tuple(-t for t in jj)) for i, jj in zip(lg.indices, ilc))
+            if got != want or not okl or not np.array_equal(np.asarray(lg.weights, dtype=float), np.asarray(g.weights, dtype=float)[np.asarray(lg.indices, dtype=int)]):
+                sub = "duplicate" if len(set(got)) != len(got) else ("images" if got != want else "values")
+                ctx.fail("oracle", f"periodicgrid.get_localgrid:{sub}",
+                         f"`{line[:100]}` after {j - 1} earlier op(s): (index, translation) pairs {got[:10]} ({len(got)}), brute-force enumeration {want[:10]} ({len(want)})",
+                         witness={"history": hist[: j + 1], "got": got[:60], "expected": want[:60]}, snippet=snippet)
+        else:
+            try:
+                with warnings.catch_warnings():
+                    warnings.simplefilter("ignore")
+                    exec(line, ns)
+            except Exception:  # noqa: BLE001 - a rejected operation
+                pass
+
+
 def oracle(ctx: Ctx, budget: str):
     import warnings
     M = _mods()
@@ -495,9 +734,11 @@ def oracle(ctx: Ctx, budget: str):
     for ci in range(n):
         args = periodic_args(rng)
         d, oned = args["d"], args["oned"]
-        orig = args["points"].copy()
-        rvtxt = "None" if args["realvecs"] is None else f"np.array({np.asarray(args['realvecs']).tolist()!r}).reshape({np.asarray(args['realvecs']).shape})"
-        base = dict(pts=args["points"].tolist(), w=args["weights"].tolist(), rv=rvtxt, wrap=args["wrap"])
+        orig = np.array(args["points"], copy=True)
+        single = args["rtol"] != RTOL          # lattice vectors given in single precision
+        tol, margin = (1e-5, 3e3) if single else (1e-9, 1.0)
+        rvtxt = "None" if args["realvecs"] is None else (_arr_text(args["realvecs"]) + f".reshape({np.asarray(args['realvecs']).shape})")
+        base = dict(pts=_arr_text(args["points"]), w=_arr_text(args["weights"]), rv=rvtxt, wrap=args["wrap"])
         try:
             with warnings.catch_warnings():
                 warnings.simplefilter("ignore")
@@ -514,21 +755,21 @@ def oracle(ctx: Ctx, budget: str):
         # (a) duality contract of the reciprocal vectors, (b) spacings
         if k:
             b = np.asarray(g.recivecs, dtype=float).reshape(k, d)
-            if not np.allclose(b @ a.T, np.eye(k), atol=1e-9) or not np.allclose(b, (b @ np.linalg.pinv(a)) @ a, atol=1e-9):
+            if not np.allclose(b @ a.T, np.eye(k), atol=tol) or not np.allclose(b, (b @ np.linalg.pinv(a)) @ a, atol=tol):
                 ctx.fail("oracle", "periodicgrid.__init__:recivecs", f"reciprocal vectors are not dual to the lattice vectors (b.a^T = {(b @ a.T).tolist()})", witness=base)
             sp = np.asarray(g.spacings, dtype=float).reshape(-1)
-            if not np.allclose(sp, 1 / np.linalg.norm(b, axis=1), rtol=1e-10) or np.any(sp <= 0):
+            if not np.allclose(sp, 1 / np.linalg.norm(b, axis=1), rtol=tol / 10) or np.any(sp <= 0):
                 ctx.fail("oracle", "periodicgrid.__init__:spacings", f"plane spacings {sp.tolist()} are not 1/|b_k| = {(1 / np.linalg.norm(b, axis=1)).tolist()}",
                          witness=base, snippet=SNIP.format(pre="assert (np.asarray(g.spacings) > 0).all(), f'spacings {g.spacings}'", c=0.0 if oned else [0.0] * d, r=0.5, box=2, **base))
             fr = P @ b.T
             iv = np.asarray(g.frac_intvls, dtype=float).reshape(k, 2)
-            if np.any(fr.min(axis=0) < iv[:, 0] - 1e-9) or np.any(fr.max(axis=0) > iv[:, 1] + 1e-9):
+            if np.any(fr.min(axis=0) < iv[:, 0] - tol) or np.any(fr.max(axis=0) > iv[:, 1] + tol):
                 ctx.fail("oracle", "periodicgrid.__init__:frac-intvls", "frac_intvls do not contain the fractional coordinates of the stored points", witness=base)
             # (c) wrapping
             if args["wrap"]:
                 coef = (P - _rows(orig, d)) @ b.T
-                if (np.any(fr < -1e-9) or np.any(fr >= 1 + 1e-9) or not np.allclose(coef, np.rint(coef), atol=1e-7)
-                        or not np.allclose(P, _rows(orig, d) + np.rint(coef) @ a, atol=1e-9 * (1 + np.abs(P).max()))):
+                if (np.any(fr < -tol) or np.any(fr >= 1 + tol) or not np.allclose(coef, np.rint(coef), atol=100 * tol)
+                        or not np.allclose(P, _rows(orig, d) + np.rint(coef) @ a, atol=tol * (1 + np.abs(P).max()))):
                     ctx.fail("oracle", "periodicgrid.__init__:wrap", "wrapped points are not in [0,1) fractional coordinates / not lattice translates of the given points", witness=base)
         if not np.array_equal(orig, args["points"]):
             ctx.fail("oracle", "periodicgrid.__init__:caller-array", "the constructor modified the caller's points array", witness=base)
@@ -544,17 +785,23 @@ def oracle(ctx: Ctx, budget: str):
                     new = old + (np.array([rng.choice([-5, -1, 2, 6]) for _ in range(k)]) @ a).reshape(old.shape[1:] if not oned else ())
                 else:
                     new = old + np.array([rng.uniform(-1.5, 1.5) for _ in range(old.size)]).reshape(old.shape)
-                g.points = new
+                cur = g.points
+                if rng.random() < 0.4 and cur.dtype == np.float64 and cur.flags.writeable:
+                    cur[...] = new          # in-place update of the grid's own array, then the same object
+                    g.points = cur          # is assigned again: still a reassignment
+                    pre = f"p = g.points; p[...] = np.array({new.tolist()!r}); g.points = p"
+                else:
+                    g.points = new
+                    pre = f"g.points = np.array({new.tolist()!r})"
                 P = _rows(g.points, d)
-                pre = f"g.points = np.array({new.tolist()!r})"
-            cc, c, r, want, how = _query_args(rng, g, a, d, oned)
+            cc, c, robj, r, want, how = _query_args(rng, g, a, d, oned, margin)
             box = int(max([abs(t) for _, j in want for t in j] + [0])) + 2
-            snippet = SNIP.format(pre=pre, c=(float(np.asarray(cc)) if oned else c.tolist()), r=r, box=box, **base)
+            snippet = SNIP.format(pre=pre, c=(float(c[0]) if oned else c.tolist()), r=r, box=box, **base)
             wit = dict(base, center=c, radius=r, expected=want[:40], reassigned=pre)
             try:
                 with warnings.catch_warnings():
                     warnings.simplefilter("ignore")
-                    lg = g.get_localgrid(cc, r)
+                    lg = g.get_localgrid(cc, robj)
             except Exception as e:  # noqa: BLE001
                 sub = "empty" if not want else "raises"
                 ctx.fail("oracle", f"periodicgrid.get_localgrid:{sub}",
@@ -573,7 +820,7 @@ def oracle(ctx: Ctx, budget: str):
                     try:
                         with warnings.catch_warnings():
                             warnings.simplefilter("ignore")
-                            fresh = PG(np.array(g.points), np.array(g.weights), args["realvecs"]).get_localgrid(cc, r)
+                            fresh = PG(np.array(g.points), np.array(g.weights), args["realvecs"]).get_localgrid(cc, robj)
                         filc, fok = recover_ilc(P, fresh, a)
                         if fok and sorted((int(i), tuple(-t for t in j)) for i, j in zip(fresh.indices, filc)) == want:
                             sub = "after-points-setter"
@@ -585,9 +832,42 @@ def oracle(ctx: Ctx, budget: str):
                          witness=dict(wit, got=got[:60]), snippet=snippet)
             # (f) without lattice vectors: the plain grid
             if k == 0:
-                ref = Grid(np.array(g.points), np.array(g.weights)).get_localgrid(cc, r)
+                ref = Grid(np.array(g.points), np.array(g.weights)).get_localgrid(cc, robj)
                 if sorted(map(int, ref.indices)) != sorted(map(int, lg.indices)):
                     ctx.fail("oracle", "periodicgrid.get_localgrid:no-lattice", "PeriodicGrid without lattice vectors differs from the plain Grid", witness=wit, snippet=snippet)
+    # (g) dtype of the lattice vectors: integers (the float64 computation is the reference)
+    for rv, pts, c in ((np.array([[2, 0], [0, 1]]), np.array([[0.25, 0.5], [1.5, 0.25]]), np.array([0.25, 0.5])),
+                       (np.array([[3, 0, 0], [0, 3, 0], [1, 0, 2]]), np.array([[0.5, 0.25, 0.75]]), np.zeros(3)),
+                       (np.array([2]), np.array([0.25, 1.5]), 0.25)):
+        w = np.ones(len(pts))
+        snippet = ("import warnings; warnings.filterwarnings('ignore')\nimport numpy as np\nfrom grid.periodicgrid import PeriodicGrid\n"
+                   f"rv = np.array({rv.tolist()!r})   # integer dtype\npts = np.array({pts.tolist()!r}); w = np.ones({len(pts)})\n"
+                   f"c = {np.asarray(c).tolist()!r}\n"
+                   "a = PeriodicGrid(pts, w, rv).get_localgrid(np.array(c) if np.ndim(c) else c, 1.25)        # (an exception here is the failure)\n"
+                   "b = PeriodicGrid(pts, w, rv.astype(float)).get_localgrid(np.array(c) if np.ndim(c) else c, 1.25)\n"
+                   "assert sorted(map(int, a.indices)) == sorted(map(int, b.indices))\n")
+        try:
+            with warnings.catch_warnings():
+                warnings.simplefilter("ignore")
+                la = PG(pts, w, rv).get_localgrid(c, 1.25)
+                lb = PG(pts, w, rv.astype(float)).get_localgrid(c, 1.25)
+            if sorted(map(int, la.indices)) != sorted(map(int, lb.indices)) or not np.allclose(np.sort(np.asarray(la.points, dtype=float), axis=0),
+                                                                                               np.sort(np.asarray(lb.points, dtype=float), axis=0)):
+                ctx.fail("oracle", "periodicgrid.__init__:int-realvecs", f"integer lattice vectors {rv.tolist()} give another local grid than the same vectors as floats",
+                         witness={"realvecs": rv, "points": pts}, snippet=snippet)
+        except ValueError as e:
+            # scope decision (DESIGN 8.3): lattice vectors of an integer dtype are rejected (np.finfo of an
+            # integer dtype in the SVD branch) -- a rejection of the argument type, not a wrong local grid
+            ctx.info(f"out of scope: PeriodicGrid with integer-dtype lattice vectors {rv.tolist()} raised ValueError: {str(e)[:70]}")
+        except Exception as e:  # noqa: BLE001
+            ctx.fail("oracle", "periodicgrid.__init__:int-realvecs",
+                     f"PeriodicGrid(points, weights, realvecs=np.array({rv.tolist()}) [dtype {rv.dtype}]) raised {type(e).__name__}: {str(e)[:90]} "
+                     "(the same lattice vectors as a float array are accepted)", witness={"realvecs": rv, "points": pts, "raised": repr(e)}, snippet=snippet)
+    try:
+        PG([[0.1, 0.2]], [1.0], [[1.0, 0.0]])
+        ctx.info("PeriodicGrid accepts Python lists for points / weights / realvecs")
+    except Exception as e:  # noqa: BLE001
+        ctx.info(f"out of scope: PeriodicGrid (like Grid) requires NumPy arrays; Python lists for points/weights/realvecs raise {type(e).__name__} (documented types: np.ndarray)")
     # documented behaviour outside the property (recorded only)
     try:
         PG(np.array([[0.1, 0.2]]), np.array([1.0])).get_localgrid(np.zeros(2), np.inf)
